@@ -152,13 +152,18 @@ def sort_natural(sequence: ArrayT, key: object = None) -> list[object]:
     return sorted(sequence, key=_lower)
 
 
+def _is_truthy(obj: object) -> bool:
+    # Only `false` and `nil` are falsy. Note that `0 in (False, None)` is true.
+    return obj is not None and obj is not False
+
+
 @sequence_filter
 def where(sequence: ArrayT, attr: object, value: object = None) -> list[object]:
     """Return a list of items from _sequence_ where _attr_ equals _value_."""
     if value is not None and not is_undefined(value):
         return [itm for itm in sequence if _getitem(itm, attr) == value]
 
-    return [itm for itm in sequence if _getitem(itm, attr) not in (False, None)]
+    return [itm for itm in sequence if _is_truthy(_getitem(itm, attr))]
 
 
 @sequence_filter
@@ -170,7 +175,7 @@ def reject(sequence: ArrayT, attr: object, value: object = None) -> list[object]
     if value is not None and not is_undefined(value):
         return [itm for itm in sequence if _getitem(itm, attr) != value]
 
-    return [itm for itm in sequence if _getitem(itm, attr) in (False, None)]
+    return [itm for itm in sequence if not _is_truthy(_getitem(itm, attr))]
 
 
 @sequence_filter
@@ -180,7 +185,7 @@ def find(sequence: ArrayT, attr: object, value: object = None) -> object:
         return next((itm for itm in sequence if _getitem(itm, attr) == value), None)
 
     return next(
-        (itm for itm in sequence if _getitem(itm, attr) not in (False, None)), None
+        (itm for itm in sequence if _is_truthy(_getitem(itm, attr))), None
     )
 
 
@@ -198,7 +203,7 @@ def find_index(
         (
             i
             for i, itm in enumerate(sequence)
-            if _getitem(itm, attr) not in (False, None)
+            if _is_truthy(_getitem(itm, attr))
         ),
         None,
     )
@@ -210,7 +215,7 @@ def has(sequence: ArrayT, attr: object, value: object = None) -> bool:
     if value is not None and not is_undefined(value):
         return any((itm for itm in sequence if _getitem(itm, attr) == value))
 
-    return any((itm for itm in sequence if _getitem(itm, attr) not in (False, None)))
+    return any((itm for itm in sequence if _is_truthy(_getitem(itm, attr))))
 
 
 @sequence_filter
